@@ -330,9 +330,9 @@ def gen_cases(ctx):
     ]
     for t in fixed:
         cases.append((t, "fixed"))
-    for _ in range(ctx.scale(800, 6000)):
+    for _ in range(ctx.scale(600, 6000)):
         cases.append((gen_main(rng), "random"))
-    for _ in range(ctx.scale(25, 200)):
+    for _ in range(ctx.scale(20, 200)):
         for t in gen_insertions(rng):
             cases.append((t, "stop-at-each-point"))
     for _ in range(ctx.scale(6, 40)):
